@@ -877,6 +877,7 @@ type c18Op struct {
 type c18Episode struct {
 	Setup []c18Op `json:"setup"`
 	Conc  []c18Op `json:"conc"`
+	Fresh bool    `json:"fresh,omitempty"` // run on a brand-new database file (its mmap grows within the first commits)
 }
 
 // what one operation / read returned
@@ -961,6 +962,9 @@ func (e *c18Env) exec(rec *c18Recorder, t int, op c18Op) (seen c18Seen, callSeq,
 	}
 	callSeq = rec.emit(map[string]any{"ev": "call", "t": t, "op": op.Op, "pu": op.Pu, "bu": bu, "w": w, "up": op.Up, "dn": op.Dn})
 	seen = c18Seen{Rec: []c18Cell{}, Users: map[string][]c18Cell{"u1": {}, "u2": {}}}
+	// a read of unmapped memory (SIGSEGV at an "unexpected fault address") is fatal for a Go process; turn it
+	// into a panic of this goroutine so that the driver survives and can report it as the crash it is
+	defer debug.SetPanicOnFault(debug.SetPanicOnFault(true))
 	switch op.Op {
 	case "post":
 		seen.Code, _, seen.Panic = e.do("POST", c18Path(e.conc.uid(op.Pu)), c18Body(e.conc.uid(op.Pu), w, t, nil))
@@ -1005,7 +1009,10 @@ func (e *c18Env) exec(rec *c18Recorder, t int, op c18Op) (seen c18Seen, callSeq,
 	default:
 		panic("unknown op " + op.Op)
 	}
-	retSeq = rec.emit(map[string]any{"ev": "ret", "t": t, "code": seen.Code, "rec": seen.Rec, "users": seen.Users})
+	if seen.Panic != "" {
+		seen.Rec, seen.Users = []c18Cell{}, map[string][]c18Cell{"u1": {}, "u2": {}}
+	}
+	retSeq = rec.emit(map[string]any{"ev": "ret", "t": t, "code": seen.Code, "rec": seen.Rec, "users": seen.Users, "void": seen.Panic != ""})
 	return
 }
 
@@ -1110,6 +1117,22 @@ func c18Explainable(ep *c18Episode, concSeen []c18Seen, back []c18Op, backSeen [
 	return try(0, base)
 }
 
+// c18CrashKey names a request that died. A fault (read of memory that is no longer mapped) inside the LIST
+// handler is the bolt key slice that ListAllUsers hands out of its transaction: in a real server that is a
+// fatal SIGSEGV, not a panic.
+func c18CrashKey(op, pan string) string {
+	if strings.Contains(pan, "fault address") || strings.Contains(pan, "invalid memory address") {
+		if op == "list" {
+			return "list-uid-outlives-transaction"
+		}
+		return "server-crash:fault:" + op
+	}
+	if strings.Contains(pan, " | ") {
+		return "panic:concurrent:" + op
+	}
+	return "concurrent-read-failed:" + op
+}
+
 func c18EpisodeKey(ep *c18Episode) string {
 	var names []string
 	for _, op := range ep.Conc {
@@ -1134,6 +1157,15 @@ func c18MakeEpisode(rng *kit.Rng, n int) c18Episode {
 	case 2:
 		f := []int{0, 1, 2, 5}[rng.Intn(4)]
 		return c18Episode{Setup: []c18Op{{Op: "post", Pu: "u1", W: c18All(100)}}, Conc: []c18Op{{Op: "upload", Pu: "u1", Up: 1 + int64(rng.Intn(3)), Dn: 4 + int64(rng.Intn(3))}, {Op: "post", Pu: "u1", W: c18One(f, v(2))}}}
+	}
+	if n%6 == 3 {
+		// a new file: bolt remaps it (munmap + mmap) when it outgrows the initial 32 KiB, i.e. during these writes
+		ep := c18Episode{Fresh: true, Setup: []c18Op{full}}
+		ep.Conc = []c18Op{{Op: "list"}, {Op: "post", Pu: "u2", W: c18All(v(2))}, {Op: "post", Pu: "u1", W: c18One(rng.Intn(6), v(3))}, {Op: "list"}}
+		if rng.Intn(2) == 0 {
+			ep.Conc[3] = c18Op{Op: "get", Pu: "u1"}
+		}
+		return ep
 	}
 	ep := c18Episode{}
 	switch rng.Intn(4) {
@@ -1177,10 +1209,11 @@ func c18MakeEpisode(rng *kit.Rng, n int) c18Episode {
 
 // c18RunEpisode executes one episode; returns what the concurrent operations and the read-back saw, and
 // whether at least two operations really overlapped.
-func (e *c18Env) runEpisode(rec *c18Recorder, ep *c18Episode) (concSeen []c18Seen, back []c18Op, backSeen []c18Seen, overlapped bool, pan string) {
+func (e *c18Env) runEpisode(rec *c18Recorder, res *kit.Result, ep *c18Episode) (concSeen []c18Seen, back []c18Op, backSeen []c18Seen, overlapped bool, pan string) {
 	rec.emit(map[string]any{"ev": "Reset"})
 	for _, op := range ep.Setup {
 		if s, _, _ := e.exec(rec, 0, op); s.Panic != "" {
+			res.Violate(c18CrashKey(op.Op, s.Panic), "set-up: "+s.Panic, map[string]any{"episode": ep})
 			return nil, nil, nil, false, "set-up " + op.Op + ": " + s.Panic
 		}
 	}
@@ -1204,6 +1237,8 @@ func (e *c18Env) runEpisode(rec *c18Recorder, ep *c18Episode) (concSeen []c18See
 	for i := 0; i < n; i++ {
 		if concSeen[i].Panic != "" {
 			pan = ep.Conc[i].Op + ": " + concSeen[i].Panic
+			res.Violate(c18CrashKey(ep.Conc[i].Op, concSeen[i].Panic), "overlapping requests: "+pan,
+				map[string]any{"episode": ep, "fresh_file": ep.Fresh})
 		}
 		for j := 0; j < n; j++ {
 			if i != j && calls[i] < rets[j] && calls[j] < rets[i] {
@@ -1216,10 +1251,51 @@ func (e *c18Env) runEpisode(rec *c18Recorder, ep *c18Episode) (concSeen []c18See
 		s, _, _ := e.exec(rec, 0, op)
 		if s.Panic != "" {
 			pan = "read-back " + op.Op + ": " + s.Panic
+			res.Violate(c18CrashKey(op.Op, s.Panic), pan, map[string]any{"episode": ep})
 		}
 		backSeen = append(backSeen, s)
 	}
 	return
+}
+
+// c18ListSchedule forces, without any timing, the one interleaving of two requests that the random episodes
+// hit only now and then: LIST has fetched the records (listAllUsersHlr: ar.manager.ListAllUsers()), other
+// requests commit enough new users for bolt to remap the file, LIST then serialises what it fetched
+// (json.Marshal(infos)). Both steps are the handler's own two statements, executed here one after the other.
+func c18ListSchedule(tmp string, users int) (key, what string) {
+	dir, err := os.MkdirTemp(tmp, "c18sched")
+	if err != nil {
+		panic(err)
+	}
+	e := &c18Env{dir: dir, status: map[string]int{}, keepSync: true}
+	if err := e.open(); err != nil {
+		panic(err)
+	}
+	defer e.destroy()
+	if code, _, pan := e.do("POST", c18Path(c18UIDa), c18Body(c18UIDa, c18All(5), 0, nil)); pan != "" || code >= 400 {
+		return "", ""
+	}
+	var infos []UserInfo
+	if p := c18Safe(func() { infos, _ = e.mgr.ListAllUsers() }); p != "" || len(infos) != 1 {
+		return "", ""
+	}
+	for i := 0; i < users; i++ { // the other requests: new users until the file has outgrown its mapping
+		uid := append([]byte{0x10, byte(i >> 8), byte(i)}, c18UIDb[3:]...)
+		e.do("POST", c18Path(uid), c18Body(uid, c18All(int64(i)), 0, nil))
+	}
+	var out []byte
+	p := c18Safe(func() {
+		defer debug.SetPanicOnFault(debug.SetPanicOnFault(true))
+		out, _ = json.Marshal(infos)
+	})
+	if p != "" {
+		return c18CrashKey("list", p), fmt.Sprintf("LIST fetched 1 user, %d POSTs of other users committed, LIST's json.Marshal reads unmapped memory (fatal SIGSEGV in a server): %s", users, p)
+	}
+	var back []UserInfo
+	if err := json.Unmarshal(out, &back); err != nil || len(back) != 1 || !bytes.Equal(back[0].UID, c18UIDa) {
+		return "list-uid-outlives-transaction", fmt.Sprintf("LIST fetched user %x, %d POSTs of other users committed, LIST then answered a user nobody created: %s", c18UIDa, users, out)
+	}
+	return "", ""
 }
 
 func TestVerifC18Linear(t *testing.T) {
@@ -1238,6 +1314,7 @@ func TestVerifC18Linear(t *testing.T) {
 		var rf struct {
 			Replay struct {
 				Episode c18Episode `json:"episode"`
+				Users   int        `json:"users"`
 			} `json:"replay"`
 		}
 		raw, err := os.ReadFile(rp)
@@ -1247,31 +1324,54 @@ func TestVerifC18Linear(t *testing.T) {
 		if err := json.Unmarshal(raw, &rf); err != nil {
 			t.Fatal(err)
 		}
+		if rf.Replay.Users > 0 {
+			key, what := c18ListSchedule(tmp, rf.Replay.Users)
+			fmt.Printf("REPLAY-RESULT key=%q what=%q\n", key, what)
+			return
+		}
 		replay = &rf.Replay.Episode
 		episodes = 300
 	}
-	dir, err := os.MkdirTemp(tmp, "c18lin")
-	if err != nil {
-		t.Fatal(err)
+	newEnv := func() *c18Env {
+		dir, err := os.MkdirTemp(tmp, "c18lin")
+		if err != nil {
+			t.Fatal(err)
+		}
+		e := &c18Env{dir: dir, status: map[string]int{}, keepSync: true}
+		if err := e.open(); err != nil {
+			t.Fatal(err)
+		}
+		return e
 	}
-	env := &c18Env{dir: dir, status: map[string]int{}, keepSync: true}
-	if err := env.open(); err != nil {
-		t.Fatal(err)
+	env := newEnv()
+	defer func() { env.destroy() }()
+	if replay == nil {
+		for _, users := range []int{40, 150, 600} {
+			key, what := c18ListSchedule(tmp, users)
+			res.Count(fmt.Sprintf("list-schedule-%d", users), true)
+			if key != "" {
+				res.Violate(key, what, map[string]any{"schedule": "ListAllUsers | POST x N | json.Marshal", "users": users})
+			}
+		}
 	}
-	defer env.destroy()
-	flagged, overlaps := 0, 0
+	flagged, overlaps, crashed := 0, 0, 0
 	for n := 0; n < episodes; n++ {
 		ep := c18MakeEpisode(rng, n)
 		if replay != nil {
 			ep = *replay
 		}
-		env.conc = c18Conc{Swap: (n+int(kit.Seed()))%2 == 1}
-		env.uses = 1
-		if !env.recycle() { // empties the store (bucket deletion behind the manager's back)
-			t.Fatal("cannot empty the database")
+		if ep.Fresh {
+			env.destroy()
+			env = newEnv()
+		} else {
+			env.uses = 1
+			if !env.recycle() { // empties the store (bucket deletion behind the manager's back)
+				t.Fatal("cannot empty the database")
+			}
 		}
+		env.conc = c18Conc{Swap: (n+int(kit.Seed()))%2 == 1}
 		first := rec.seq + 1
-		concSeen, back, backSeen, overlapped, pan := env.runEpisode(rec, &ep)
+		concSeen, back, backSeen, overlapped, pan := env.runEpisode(rec, res, &ep)
 		if overlapped {
 			overlaps++
 		}
@@ -1279,8 +1379,15 @@ func TestVerifC18Linear(t *testing.T) {
 		sig, _ := json.Marshal(ep)
 		res.Count(string(sig), len(ep.Conc) >= 2)
 		if pan != "" {
-			res.Violate("panic:concurrent", pan, map[string]any{"episode": ep})
-			break
+			// a request crashed (already reported under its own key); its return is "void" in the recording and
+			// this episode is not judged by the permutation check
+			crashed++
+			if concSeen == nil {
+				continue
+			}
+			index.Emit(map[string]any{"n": n, "first": first, "last": rec.seq, "key": key, "episode": ep,
+				"conc_seen": concSeen, "back_seen": backSeen, "explainable": true, "overlapped": overlapped, "crashed": pan})
+			continue
 		}
 		ok := c18Explainable(&ep, concSeen, back, backSeen)
 		index.Emit(map[string]any{"n": n, "first": first, "last": rec.seq, "key": key, "episode": ep,
@@ -1297,6 +1404,7 @@ func TestVerifC18Linear(t *testing.T) {
 	}
 	res.Stat("episodes", int64(episodes))
 	res.Stat("episodes_overlapped", int64(overlaps))
+	res.Stat("episodes_with_a_crashed_request", int64(crashed))
 	res.Stat("episodes_flagged_by_permutation_check", int64(flagged))
 	res.Stat("trace_events", rec.seq)
 	if replay != nil {
